@@ -46,9 +46,6 @@ impl Out {
     }
 }
 
-pub static T_OWN: std::sync::atomic::AtomicU64 = std::sync::atomic::AtomicU64::new(0);
-pub static T_OWN_IT: std::sync::atomic::AtomicU64 = std::sync::atomic::AtomicU64::new(0);
-pub static T_FIT: std::sync::atomic::AtomicU64 = std::sync::atomic::AtomicU64::new(0);
 fn run_case(case: &Case, viols: &mut Vec<Violation>) -> Out {
     match case {
         Case::Binary(c) => binary::run(c, viols),
@@ -79,8 +76,7 @@ struct Tally {
     tags: BTreeMap<&'static str, u64>,
 }
 
-fn record(ctx: &Ctx, tally: &Mutex<Tally>, local: &mut Tally, o: Out, viols: Vec<Violation>) {
-    let _ = tally;
+fn record(ctx: &Ctx, local: &mut Tally, o: Out, viols: Vec<Violation>) {
     if o.ood {
         ctx.out_of_domain();
     } else {
@@ -111,6 +107,14 @@ fn merge(tally: &Mutex<Tally>, local: Tally) {
     }
     for (k, v) in local.tags {
         *t.tags.entry(k).or_insert(0) += v;
+    }
+}
+
+fn gcd(a: usize, b: usize) -> usize {
+    if b == 0 {
+        a
+    } else {
+        gcd(b, a % b)
     }
 }
 
@@ -153,43 +157,57 @@ struct BinGroup {
     family: &'static str,
     pts: Vec<Vec<f64>>,
     mask: u32,
+    scale: f64,
 }
 struct MultiGroup {
+    idx: usize,
     family: &'static str,
     pts: Vec<Vec<f64>>,
     k: usize,
     part: Vec<u8>,
-}
-struct TwGroup {
-    family: &'static str,
-    pts: Vec<Vec<f64>>,
-    y: Vec<f64>,
-    alphabet: &'static str,
+    scale: f64,
+    alpha: f64,
 }
 
 const SCALES: [f64; 3] = [1.0, 10.0, 100.0];
 const ALPHAS: [f64; 4] = [0.0, 0.01, 1.0, 100.0];
 const GTOL: f64 = 1e-4;
-const MAX_ITER: u64 = 5000;
+/// "large": ten times the library default of 100 (healthy fits of these 1..12-parameter problems need < 300)
+const MAX_ITER: u64 = 1000;
 
 fn main() {
+    // child mode of the isolated Tweedie fit (see tweedie::fit_isolated)
+    {
+        let args: Vec<String> = std::env::args().collect();
+        if args.len() == 3 && args[1] == "--fit-one" {
+            tweedie::child_main(&args[2]);
+        }
+    }
     let ctx = Ctx::new("C12", Level::Exploration);
     ctx.maybe_replay(&replay_value);
+    // development aid only: C12_ONLY=binary|multi|tweedie runs one family (and marks the run as capped)
+    let only = std::env::var("C12_ONLY").ok();
+    let want = |fam: &str| only.as_deref().map_or(true, |o| o == fam);
+    if only.is_some() {
+        ctx.capped("C12_ONLY set: partial development run");
+    }
     ctx.set_rule(
         "binary: 1-D lattice {0..n-1}, 1-D lattice with every point doubled, 2-D lattice 3x2 (quick, n=6) / 4x2 (thorough, n=8); EVERY labeling with both classes present (2^n - 2) \
          x label type {bool, usize, &str, String} x 2 namings (which literal values the two groups get) x sample order {identity, reversed, interleaved} x feature scale {1,10,100} \
          x alpha {0,.01,1,100} x intercept {on,off} x initial parameters {none, given}; labelings that are weakly linearly separable (own exact integer test, with / without intercept as fitted) \
          are out of domain for alpha = 0 and in domain for alpha > 0. multinomial: EVERY partition of the n = 6 (quick) / 7 (thorough) points of the 1-D and 2-D lattice into exactly k = 2,3,4 classes \
-         (restricted growth strings) x 2 namings (class values in / not in block order) x label type {usize, &str, String} x order (identity; thorough: 3 orders) x scale x alpha x intercept x init; \
-         alpha = 0 cases without a certified finite maximiser (own Newton) are out of domain. Tweedie: power {0,1,1.5,2,3} x link {identity, log, logit} x alpha {0,.1,1} x intercept {on,off} x EVERY target vector over a \
-         3-letter alphabet inside the support on the 5-point 1-D design and (2-letter alphabet quick / 3-letter thorough) the 6-point 2-D design, plus every single-position replacement of a target by a value outside \
-         the support. evaluations = fits (one per case) that are in domain; non-trivial = the fit returned parameters different from its start (non-zero weights) or an out-of-support rejection was demanded; \
+         (restricted growth strings) x scale x alpha x intercept x init x {label type {usize, &str, String} x 2 namings (class values in / not in block order): thorough = full product and 3 sample orders; \
+         quick = identity order and ONE of the six label variants per fit, cycling along the enumeration}; alpha = 0 cases without a certified finite maximiser (own Newton) are out of domain. \
+         Tweedie: power {0,1,1.5,2,3} x link {identity, log, logit} x alpha {0,.1,1} x intercept {on,off} x EVERY target vector over a 3-letter alphabet inside the support on a 1-D design (4 points quick / 5 thorough) \
+         and over a 2-letter (quick) / 3-letter (thorough) alphabet on the 6-point 2-D design, plus every single-position replacement of a target by a value outside the support. \
+         evaluations = in-domain fits (one per case); non-trivial = the fit returned parameters different from its start (non-zero weights) or an out-of-support rejection was demanded; \
          every fitted model is additionally queried on the training points, the origin and extreme points with |x.w| in {1,20,40,710,1000} (counted as prediction_queries).",
     );
-    ctx.assume("documented objectives (rustdoc of logistic_loss / multi_logistic_loss / TweedieProblem::cost): binary -sum_i log sigm(y_i z_i) + alpha/2 w.w; multinomial -sum(Y*log softmax(XW+b)) + alpha/2 ||W||_F^2; Tweedie 1/2 (sum_i unit_deviance(y_i, mu_i) + alpha w.w); sums not means; the intercept is never penalised");
-    ctx.assume("stationarity oracle: own f64 gradient norm at the returned parameters <= 10 x gradient_tolerance (1e-4, max_iterations 5000) OR objective within 1e-8 * max(1,|J*|) of the own damped-Newton minimum (logistic: from zero, convex; Tweedie: Newton descent started at the returned point); a violation needs BOTH to fail");
+    ctx.assume("documented objectives (rustdoc of logistic_loss / multi_logistic_loss / TweedieProblem::cost): binary -sum_i log sigm(y_i z_i) + alpha/2 w.w; multinomial -sum(Y*log softmax(XW+b)) + alpha/2 ||W||_F^2; Tweedie 1/2 (sum_i unit_deviance(y_i, mu_i) + alpha w.w) with the textbook unit deviance the comments in distribution.rs quote; sums not means; the intercept is never penalised");
+    ctx.assume("stationarity oracle: own f64 gradient norm at the returned parameters <= 10 x gradient_tolerance (1e-4; max_iterations 1000 = 10 x default) OR objective within 1e-8 * max(1,|J*|) of the own damped-Newton minimum (logistic: from zero, convex; Tweedie: Newton descent started at the returned point); a violation needs BOTH to fail");
     ctx.assume("domain, alpha = 0: binary by an exact integer cone test (no non-zero (w,b) with y_i (x_i.w+b) >= 0 for all i; quasi-complete separation counts as separable because no finite maximiser exists); multinomial by an own Newton solve from zero that reaches gradient norm <= 1e-10*max|x| with all score spreads <= 15");
     ctx.assume("Tweedie domain: targets inside the support; the documented start (coef 0, intercept link(mean y)) has a finite objective; an own Newton solve from that start certifies an interior stationary point with |linear predictor| <= 30; everything else is counted out_of_domain");
+    ctx.assume("Tweedie identity link with power >= 1: the deviance is undefined for linear predictors <= 0, so an Err from the solver is accepted (counted); the fit runs in a child process (max_iter 1000) and must return within 3000 ms (healthy: < 50 ms), returned parameters must still be stationary; predictions of these models are not queried");
     ctx.assume("probabilities: finite, in [0,1], equal to the own sigmoid / softmax of x.w+b within 1e-9, multinomial rows sum to 1 within 1e-9; decision: binary class must follow p > threshold outside a 1e-9 margin (inside: indeterminate), except that p bit-equal to the threshold must give the positive class ('minimum probability needed', rustdoc); multinomial: any class within 1e-9 of the row maximum is accepted");
     ctx.assume("which of the two classes is coded +1 is NOT demanded (rustdoc of label_classes says 'larger by PartialOrd', the existing test simple_example_1 pins 'more frequent, first seen on ties'): the oracle reads the coding from labels() and only demands the class SET; both rules are tallied in the evidence");
     ctx.assume("Tweedie predictions: range of the link is taken closed (exp may saturate to 0 / +inf at |x.w| ~ 1e3), values equal the own inverse link within 1e-9 relative");
@@ -203,55 +221,57 @@ fn main() {
     lattices.push(("1d_doubled", (0..nb).map(|i| vec![(i / 2) as f64]).collect()));
     lattices.push(("2d", (0..nb).map(|i| vec![(i / 2) as f64, (i % 2) as f64]).collect()));
     let mut bgroups: Vec<BinGroup> = Vec::new();
-    for (fam, pts) in &lattices {
-        for mask in 1..(1u32 << nb) - 1 {
-            bgroups.push(BinGroup { family: fam, pts: pts.clone(), mask });
+    if want("binary") {
+        for (fam, pts) in &lattices {
+            for mask in 1..(1u32 << nb) - 1 {
+                for &scale in &SCALES {
+                    bgroups.push(BinGroup { family: fam, pts: pts.clone(), mask, scale });
+                }
+            }
         }
     }
     let label_variants: Vec<(&'static str, u8)> = vec![("bool", 0), ("bool", 1), ("usize", 0), ("usize", 1), ("str", 0), ("str", 1), ("string", 0), ("string", 1)];
     let bin_orders = orders(nb, &["identity", "reversed", "interleaved"]);
-    let per_bgroup = label_variants.len() * bin_orders.len() * SCALES.len() * ALPHAS.len() * 2 * 2;
+    let per_bgroup = label_variants.len() * bin_orders.len() * ALPHAS.len() * 2 * 2;
     let bin_expected = (bgroups.len() * per_bgroup) as u64;
-    if std::env::var("C12_ONLY_TW").is_ok() { bgroups.clear(); }
     par_sweep(&ctx, "binary logistic", &bgroups, |g| {
         let mut local = Tally::default();
+        let scale = g.scale;
         for (oname, perm) in &bin_orders {
-            for &scale in &SCALES {
-                let x: Vec<Vec<f64>> = perm.iter().map(|&i| g.pts[i].iter().map(|v| v * scale).collect()).collect();
-                let groups: Vec<u8> = perm.iter().map(|&i| ((g.mask >> i) & 1) as u8).collect();
-                let d = x[0].len();
-                for &alpha in &ALPHAS {
-                    for intercept in [true, false] {
-                        for given in [false, true] {
-                            let init = if given {
-                                let mut v: Vec<f64> = (0..d).map(|j| if j % 2 == 0 { 0.1 / scale } else { -0.05 / scale }).collect();
-                                if intercept {
-                                    v.push(-0.2);
-                                }
-                                Some(v)
-                            } else {
-                                None
-                            };
-                            for (lt, naming) in &label_variants {
-                                let case = Case::Binary(BinCase {
-                                    family: g.family.to_string(),
-                                    x: x.clone(),
-                                    groups: groups.clone(),
-                                    label_type: lt.to_string(),
-                                    naming: *naming,
-                                    alpha,
-                                    intercept,
-                                    init: init.clone(),
-                                    gtol: GTOL,
-                                    max_iter: MAX_ITER,
-                                    order: oname.to_string(),
-                                    scale,
-                                });
-                                let mut v = Vec::new();
-                                let o = run_case(&case, &mut v);
-                                record(&ctx, &tally, &mut local, o, v);
-                                ctx.sample(|| serde_json::to_value(&case).unwrap());
+            let x: Vec<Vec<f64>> = perm.iter().map(|&i| g.pts[i].iter().map(|v| v * scale).collect()).collect();
+            let groups: Vec<u8> = perm.iter().map(|&i| ((g.mask >> i) & 1) as u8).collect();
+            let d = x[0].len();
+            for &alpha in &ALPHAS {
+                for intercept in [true, false] {
+                    for given in [false, true] {
+                        let init = if given {
+                            let mut v: Vec<f64> = (0..d).map(|j| if j % 2 == 0 { 0.1 / scale } else { -0.05 / scale }).collect();
+                            if intercept {
+                                v.push(-0.2);
                             }
+                            Some(v)
+                        } else {
+                            None
+                        };
+                        for (lt, naming) in &label_variants {
+                            let case = Case::Binary(BinCase {
+                                family: g.family.to_string(),
+                                x: x.clone(),
+                                groups: groups.clone(),
+                                label_type: lt.to_string(),
+                                naming: *naming,
+                                alpha,
+                                intercept,
+                                init: init.clone(),
+                                gtol: GTOL,
+                                max_iter: MAX_ITER,
+                                order: oname.to_string(),
+                                scale,
+                            });
+                            let mut v = Vec::new();
+                            let o = run_case(&case, &mut v);
+                            record(&ctx, &mut local, o, v);
+                            ctx.sample(|| serde_json::to_value(&case).unwrap());
                         }
                     }
                 }
@@ -275,59 +295,67 @@ fn main() {
     for k in 2..=4usize {
         let parts = partitions(nm, k);
         n_partitions += parts.len() as u64;
+        if !want("multi") {
+            continue;
+        }
         for (fam, pts) in &mlattices {
             for p in &parts {
-                mgroups.push(MultiGroup { family: fam, pts: pts.clone(), k, part: p.clone() });
+                for &scale in &SCALES {
+                    for &alpha in &ALPHAS {
+                        let idx = mgroups.len();
+                        mgroups.push(MultiGroup { idx, family: fam, pts: pts.clone(), k, part: p.clone(), scale, alpha });
+                    }
+                }
             }
         }
     }
     let m_orders = if ctx.quick() { orders(nm, &["identity"]) } else { orders(nm, &["identity", "reversed", "interleaved"]) };
     let m_labels: Vec<(&'static str, u8)> = vec![("usize", 0), ("usize", 1), ("str", 0), ("str", 1), ("string", 0), ("string", 1)];
-    let per_mgroup = m_labels.len() * m_orders.len() * SCALES.len() * ALPHAS.len() * 2 * 2;
+    let variants_per_fit = if ctx.quick() { 1 } else { m_labels.len() };
+    let per_mgroup = variants_per_fit * m_orders.len() * 2 * 2;
     let multi_expected = (mgroups.len() * per_mgroup) as u64;
-    if std::env::var("C12_ONLY_TW").is_ok() { mgroups.clear(); }
     par_sweep(&ctx, "multinomial logistic", &mgroups, |g| {
         let mut local = Tally::default();
+        let (scale, alpha) = (g.scale, g.alpha);
+        let mut cfg = 0usize;
         for (oname, perm) in &m_orders {
-            for &scale in &SCALES {
-                let x: Vec<Vec<f64>> = perm.iter().map(|&i| g.pts[i].iter().map(|v| v * scale).collect()).collect();
-                let groups: Vec<u8> = perm.iter().map(|&i| g.part[i]).collect();
-                let d = x[0].len();
-                for &alpha in &ALPHAS {
-                    for intercept in [true, false] {
-                        for given in [false, true] {
-                            let pz = d + intercept as usize;
-                            let init = if given {
-                                Some(
-                                    (0..pz)
-                                        .map(|i| (0..g.k).map(|c| (((i + 2 * c) % 3) as f64 - 1.0) * 0.1 / if i < d { scale } else { 1.0 }).collect::<Vec<f64>>())
-                                        .collect::<Vec<_>>(),
-                                )
-                            } else {
-                                None
-                            };
-                            for (lt, naming) in &m_labels {
-                                let case = Case::Multi(MultiCase {
-                                    family: g.family.to_string(),
-                                    x: x.clone(),
-                                    groups: groups.clone(),
-                                    k: g.k,
-                                    label_type: lt.to_string(),
-                                    naming: *naming,
-                                    alpha,
-                                    intercept,
-                                    init: init.clone(),
-                                    gtol: GTOL,
-                                    max_iter: MAX_ITER,
-                                    order: oname.to_string(),
-                                    scale,
-                                });
-                                let mut v = Vec::new();
-                                let o = run_case(&case, &mut v);
-                                record(&ctx, &tally, &mut local, o, v);
-                                ctx.sample(|| serde_json::to_value(&case).unwrap());
-                            }
-                        }
+            let x: Vec<Vec<f64>> = perm.iter().map(|&i| g.pts[i].iter().map(|v| v * scale).collect()).collect();
+            let groups: Vec<u8> = perm.iter().map(|&i| g.part[i]).collect();
+            let d = x[0].len();
+            for intercept in [true, false] {
+                for given in [false, true] {
+                    let pz = d + intercept as usize;
+                    let init = if given {
+                        Some(
+                            (0..pz)
+                                .map(|i| (0..g.k).map(|c| (((i + 2 * c) % 3) as f64 - 1.0) * 0.1 / if i < d { scale } else { 1.0 }).collect::<Vec<f64>>())
+                                .collect::<Vec<_>>(),
+                        )
+                    } else {
+                        None
+                    };
+                    cfg += 1;
+                    let chosen: Vec<(&'static str, u8)> = if ctx.quick() { vec![m_labels[(g.idx * 5 + cfg) % m_labels.len()]] } else { m_labels.clone() };
+                    for (lt, naming) in &chosen {
+                        let case = Case::Multi(MultiCase {
+                            family: g.family.to_string(),
+                            x: x.clone(),
+                            groups: groups.clone(),
+                            k: g.k,
+                            label_type: lt.to_string(),
+                            naming: *naming,
+                            alpha,
+                            intercept,
+                            init: init.clone(),
+                            gtol: GTOL,
+                            max_iter: MAX_ITER,
+                            order: oname.to_string(),
+                            scale,
+                        });
+                        let mut v = Vec::new();
+                        let o = run_case(&case, &mut v);
+                        record(&ctx, &mut local, o, v);
+                        ctx.sample(|| serde_json::to_value(&case).unwrap());
                     }
                 }
             }
@@ -336,105 +364,110 @@ fn main() {
     });
     let multi_done = tally.lock().unwrap().cases - bin_done;
     ctx.extra("binary_plus_multinomial_sweep_wall_s", json!((ctx.elapsed() * 10.0).round() / 10.0));
-    eprintln!("T_OWN {} us, iters {}, T_FIT {} us", T_OWN.load(std::sync::atomic::Ordering::Relaxed), T_OWN_IT.load(std::sync::atomic::Ordering::Relaxed), T_FIT.load(std::sync::atomic::Ordering::Relaxed));
     ctx.extra("multinomial_partitions", json!(n_partitions));
     ctx.extra("multinomial_cases_enumerated", json!(multi_expected));
     ctx.extra("multinomial_cases_run", json!(multi_done));
 
     // ------------------------------------------------------------------ Tweedie
-    let design1: Vec<Vec<f64>> = (0..5).map(|i| vec![i as f64 * 0.5]).collect();
+    let n1 = ctx.pick(4usize, 5usize);
+    let design1: Vec<Vec<f64>> = (0..n1).map(|i| vec![i as f64 * 0.5]).collect();
     let design2: Vec<Vec<f64>> = (0..6).map(|i| vec![(i / 2) as f64 * 0.5, (i % 2) as f64]).collect();
-    // alphabets: name -> letters; which (power, link) pairs use which alphabet is decided below
-    let alphabets: Vec<(&'static str, Vec<f64>)> = vec![("unit_interval", vec![0.2, 0.5, 0.9]), ("real", vec![-1.0, 0.5, 2.0]), ("nonneg", vec![0.0, 1.0, 3.0]), ("pos", vec![0.5, 1.0, 3.0])];
-    let mut tgroups: Vec<TwGroup> = Vec::new();
-    for (aname, letters) in &alphabets {
-        for seq in lvmc_core::enumerate::sequences(5, 3) {
-            tgroups.push(TwGroup { family: "1d5", pts: design1.clone(), y: seq.iter().map(|&i| letters[i]).collect(), alphabet: aname });
+    let alphabet = |p: f64, link: &str| -> [f64; 3] {
+        if link == "logit" {
+            [0.2, 0.5, 0.9]
+        } else if p == 0.0 {
+            [-1.0, 0.5, 2.0]
+        } else if p < 2.0 {
+            [0.0, 1.0, 3.0]
+        } else {
+            [0.5, 1.0, 3.0]
         }
-        let a2 = ctx.pick(2usize, 3usize);
-        for seq in lvmc_core::enumerate::sequences(6, a2) {
-            // the 2-letter quick alphabet uses the first and the last letter
-            let pick = |i: usize| if a2 == 2 { letters[i * 2] } else { letters[i] };
-            tgroups.push(TwGroup { family: "2d6", pts: design2.clone(), y: seq.iter().map(|&i| pick(i)).collect(), alphabet: aname });
-        }
-    }
+    };
     let powers = [0.0, 1.0, 1.5, 2.0, 3.0];
     let links = ["identity", "log", "logit"];
     let tw_alphas = [0.0, 0.1, 1.0];
-    // alphabet used by a (power, link) pair
-    let alphabet_for = |p: f64, link: &str| -> &'static str {
-        if link == "logit" {
-            "unit_interval"
-        } else if p == 0.0 {
-            "real"
-        } else if p < 2.0 {
-            "nonneg"
-        } else {
-            "pos"
-        }
-    };
-    let tw_expected = std::sync::atomic::AtomicU64::new(0);
-    par_sweep(&ctx, "tweedie", &tgroups, |g| {
-        let mut local = Tally::default();
+    let mut tcases: Vec<Case> = Vec::new();
+    let mut n_targets = 0u64;
+    if want("tweedie") {
         for &p in &powers {
             for link in links {
-                if alphabet_for(p, link) != g.alphabet {
-                    continue;
+                let letters = alphabet(p, link);
+                let mut targets: Vec<(&'static str, &Vec<Vec<f64>>, Vec<f64>)> = Vec::new();
+                for seq in lvmc_core::enumerate::sequences(n1, 3) {
+                    targets.push(("1d", &design1, seq.iter().map(|&i| letters[i]).collect()));
                 }
-                for &alpha in &tw_alphas {
-                    for intercept in [true, false] {
-                        let case = Case::Tweedie(TwCase { family: g.family.to_string(), x: g.pts.clone(), y: g.y.clone(), power: p, link: link.to_string(), alpha, intercept, tol: GTOL, max_iter: MAX_ITER as usize });
-                        let mut v = Vec::new();
-                        let o = run_case(&case, &mut v);
-                        record(&ctx, &tally, &mut local, o, v);
-                        tw_expected.fetch_add(1, std::sync::atomic::Ordering::Relaxed);
-                        ctx.sample(|| serde_json::to_value(&case).unwrap());
-                    }
+                let a2 = ctx.pick(2usize, 3usize);
+                for seq in lvmc_core::enumerate::sequences(6, a2) {
+                    // the 2-letter quick alphabet uses the first and the last letter
+                    targets.push(("2d", &design2, seq.iter().map(|&i| if a2 == 2 { letters[i * 2] } else { letters[i] }).collect()));
                 }
-            }
-        }
-        merge(&tally, local);
-    });
-    // targets outside the support: every position x every bad value, on a fixed in-support base vector
-    let mut range_cases: Vec<Case> = Vec::new();
-    for &p in &powers[1..] {
-        let bads: Vec<f64> = if p < 2.0 { vec![-1.0, -1e-9] } else { vec![-1.0, -1e-9, 0.0] };
-        for link in links {
-            for intercept in [true, false] {
-                for (fam, pts) in [("1d5", &design1), ("2d6", &design2)] {
-                    for pos in 0..pts.len() {
-                        for &bad in &bads {
-                            let mut y: Vec<f64> = (0..pts.len()).map(|i| if link == "logit" { 0.2 + 0.1 * i as f64 } else { 0.5 + i as f64 }).collect();
-                            y[pos] = bad;
-                            range_cases.push(Case::Tweedie(TwCase { family: fam.to_string(), x: pts.clone(), y, power: p, link: link.to_string(), alpha: 0.1, intercept, tol: GTOL, max_iter: MAX_ITER as usize }));
+                n_targets += targets.len() as u64;
+                for (fam, pts, y) in targets {
+                    for &alpha in &tw_alphas {
+                        for intercept in [true, false] {
+                            tcases.push(Case::Tweedie(TwCase { family: fam.to_string(), x: pts.clone(), y: y.clone(), power: p, link: link.to_string(), alpha, intercept, tol: GTOL, max_iter: MAX_ITER as usize }));
                         }
                     }
                 }
             }
         }
     }
-    par_sweep(&ctx, "tweedie support", &range_cases, |case| {
+    // targets outside the support: every position x every bad value, on a fixed in-support base vector
+    let mut n_range = 0u64;
+    if want("tweedie") {
+        for &p in &powers[1..] {
+            let bads: Vec<f64> = if p < 2.0 { vec![-1.0, -1e-9] } else { vec![-1.0, -1e-9, 0.0] };
+            for link in links {
+                for intercept in [true, false] {
+                    for (fam, pts) in [("1d", &design1), ("2d", &design2)] {
+                        for pos in 0..pts.len() {
+                            for &bad in &bads {
+                                let mut y: Vec<f64> = (0..pts.len()).map(|i| if link == "logit" { 0.25 + 0.125 * i as f64 } else { 0.5 + i as f64 }).collect();
+                                y[pos] = bad;
+                                n_range += 1;
+                                tcases.push(Case::Tweedie(TwCase { family: fam.to_string(), x: pts.clone(), y, power: p, link: link.to_string(), alpha: 0.1, intercept, tol: GTOL, max_iter: MAX_ITER as usize }));
+                            }
+                        }
+                    }
+                }
+            }
+        }
+    }
+    // deterministic interleaving (stride permutation): the few fits that hit the child-process timeout are
+    // spread over all worker threads instead of queueing up behind each other
+    {
+        let n = tcases.len();
+        let mut stride = 7919 % n.max(1);
+        while n > 1 && gcd(stride.max(1), n) != 1 {
+            stride += 1;
+        }
+        let perm: Vec<Case> = (0..n).map(|i| tcases[(i * stride.max(1)) % n].clone()).collect();
+        tcases = perm;
+    }
+    par_sweep(&ctx, "tweedie", &tcases, |case| {
         let mut local = Tally::default();
         let mut v = Vec::new();
         let o = run_case(case, &mut v);
-        record(&ctx, &tally, &mut local, o, v);
+        record(&ctx, &mut local, o, v);
+        ctx.sample(|| serde_json::to_value(case).unwrap());
         merge(&tally, local);
     });
-    eprintln!("TW T_OWN {} us, iters {}, T_FIT {} us", T_OWN.load(std::sync::atomic::Ordering::Relaxed), T_OWN_IT.load(std::sync::atomic::Ordering::Relaxed), T_FIT.load(std::sync::atomic::Ordering::Relaxed));
     let t = tally.lock().unwrap();
     let tw_done = t.cases - bin_done - multi_done;
-    let tw_enumerated = tw_expected.load(std::sync::atomic::Ordering::Relaxed) + range_cases.len() as u64;
-    ctx.extra("tweedie_cases_enumerated", json!(tw_enumerated));
+    ctx.extra("tweedie_target_vectors", json!(n_targets));
+    ctx.extra("tweedie_isolated_fit_longest_returning_child_ms", json!(tweedie::MAX_CHILD_MS.load(std::sync::atomic::Ordering::Relaxed)));
+    ctx.extra("all_sweeps_wall_s", json!((ctx.elapsed() * 10.0).round() / 10.0));
+    ctx.extra("tweedie_cases_enumerated", json!(tcases.len()));
     ctx.extra("tweedie_cases_run", json!(tw_done));
-    ctx.extra("tweedie_out_of_support_cases", json!(range_cases.len()));
+    ctx.extra("tweedie_out_of_support_cases_enumerated", json!(n_range));
     ctx.extra("prediction_queries", json!(t.queries));
     ctx.extra("extreme_queries_with_score_above_100", json!(t.extreme));
     ctx.extra("max_score_at_certified_alpha0_optimum", json!(t.max_own_score));
     for (k, v) in &t.tags {
         ctx.extra(k, json!(v));
     }
-    if bin_done != bin_expected || multi_done != multi_expected {
-        ctx.capped(&format!("cases run {} + {} != enumerated {} + {}", bin_done, multi_done, bin_expected, multi_expected));
+    if bin_done != bin_expected || multi_done != multi_expected || tw_done != tcases.len() as u64 {
+        ctx.capped(&format!("cases run {} + {} + {} != enumerated {} + {} + {}", bin_done, multi_done, tw_done, bin_expected, multi_expected, tcases.len()));
     }
     drop(t);
     ctx.finish(&replay_value);
